@@ -211,12 +211,12 @@ Definition fv_lines (f : fview) : list line :=
 
 (* adaptor kinds: 1 Reversed | 2 UndirectedAdaptor | 3 NodeFiltered (keep n when bit (n mod 30) of p1 is set, or p2 = n)
    4 EdgeFiltered (keep an edge when its weight mod p1 <> p2) | 5 Frozen / reference delegation (identity) *)
-Definition node_pred (p1 p2 : nat) (n : nat) : bool :=
-  orb (N.testbit (N.of_nat p1) (N.of_nat (Nat.modulo n 20))) (Nat.eqb p2 n).
-Definition edge_pred (p1 p2 : nat) (q : quad) : bool :=
-  negb (Z.eqb (Z.modulo (q_w q) (Z.max 1 (zn p1))) (zn p2)).
+Definition node_pred (p1 p2 : Z) (n : nat) : bool :=
+  orb (Z.testbit p1 (Z.of_nat (Nat.modulo n 20))) (Z.eqb p2 (zn n)).
+Definition edge_pred (p1 p2 : Z) (q : quad) : bool :=
+  negb (Z.eqb (Z.modulo (q_w q) (Z.max 1 p1)) p2).
 
-Definition apply_adaptor (k p1 p2 : nat) (f : fview) : option fview :=
+Definition apply_adaptor (k : nat) (p1 p2 : Z) (f : fview) : option fview :=
   match k with
   | 1 => if f_has_in f then Some (fv_reversed f) else None
   | 2 => if f_has_in f then Some (fv_undirected f) else None
@@ -230,11 +230,11 @@ Definition fv_query (f : fview) (o : line) : list line :=
   let '(code, a) := o in
   match code with
   | 10 => [(TAG_NAT, [zn (fv_check f)])]
-  | 11 => match apply_adaptor (arg a 0) (arg a 1) (arg a 2) f with
+  | 11 => match apply_adaptor (arg a 0) (argz a 1) (argz a 2) f with
           | Some g => (TAG_NAT, [zn (fv_check g)]) :: fv_lines g
           | None => [(TAG_PANIC, [])] end
-  | 12 => match apply_adaptor (arg a 0) (arg a 1) (arg a 2) f with
-          | Some g => match apply_adaptor (arg a 3) (arg a 4) (arg a 5) g with
+  | 12 => match apply_adaptor (arg a 0) (argz a 1) (argz a 2) f with
+          | Some g => match apply_adaptor (arg a 3) (argz a 4) (argz a 5) g with
                       | Some h => (TAG_NAT, [zn (fv_check h)]) :: fv_lines h
                       | None => [(TAG_PANIC, [])] end
           | None => [(TAG_PANIC, [])] end
